@@ -42,13 +42,26 @@ fn corpus_files(corpus_dir: &str, max: usize) -> Vec<(String, String)> {
 /// {file: {pattern: [lines] | null (the call panics)}}
 pub fn baseline(corpus_dir: &str, max_files: usize, path: &str, out: &mut Outcome) {
     let mut m = serde_json::Map::new();
+    // every file in a process of its own: whatever one analysis leaves behind in the process (tables, caches, counters)
+    // cannot reach the baseline of another file
+    let exe = std::env::current_exe().expect("current_exe");
     for (name, text) in corpus_files(corpus_dir, max_files) {
         let mut per = serde_json::Map::new();
+        let path = std::path::Path::new(corpus_dir).join(&name);
+        let child = std::process::Command::new(&exe).arg("analyze").arg(&path).output();
+        let parsed: Option<Value> = child.ok().and_then(|o| serde_json::from_slice(&o.stdout).ok());
+        let results = parsed.as_ref().map(|v| v["extra"]["results"].clone()).unwrap_or(Value::Null);
         for d in all_detectors() {
-            per.insert(d.name(), match d.run(&text) {
-                Ok(s) => json!(s),
-                Err(_) => json!("panic"),
-            });
+            let v = match results.get(d.name()) {
+                Some(Value::Array(a)) => json!(a),
+                Some(_) => json!("panic"),
+                // (no child result at all: fall back to this process)
+                None => match d.run(&text) {
+                    Ok(s) => json!(s),
+                    Err(_) => json!("panic"),
+                },
+            };
+            per.insert(d.name(), v);
             out.evaluations += 1;
         }
         m.insert(name, Value::Object(per));
